@@ -73,6 +73,8 @@ func ival(v int64) *pb.TypedValue {
 		return &pb.TypedValue{Value: &pb.TypedValue_DecimalVal{DecimalVal: &pb.Decimal64{Digits: 16777216, Precision: 0}}}
 	case 1002:
 		return &pb.TypedValue{Value: &pb.TypedValue_DecimalVal{DecimalVal: &pb.Decimal64{Digits: 167772170, Precision: 1}}}
+	case 1009: // a decimal written with a trailing zero: 4.20
+		return &pb.TypedValue{Value: &pb.TypedValue_DecimalVal{DecimalVal: &pb.Decimal64{Digits: 420, Precision: 2}}}
 	case 1003: // the same number as IntVal 1 in another arm of the oneof: a different value
 		return &pb.TypedValue{Value: &pb.TypedValue_UintVal{UintVal: 1}}
 	case 1004:
